@@ -52,6 +52,18 @@ def run_item(item):
     if xf:
         # displayed names are rewritten; link targets must still be the real files
         opts['--file-transformation'] = rng.choice(['s,^,TR~,', 's,^([^/]*)/,TR~$1/,', 's,^(.),TR~$1,'])
+    env = {}
+    prefix = ''
+    if case['kind'] in ('diff', 'log') and rng.random() < 0.25:
+        # git ran delta from a subdirectory (GIT_PREFIX) and the user asked for paths relative to it: names are
+        # displayed relative to that directory, the links must still name the same absolute files
+        opts['--relative-paths'] = True
+        prefix = rng.choice(['src/', 'a/b/', 'docs/'])
+        env['GIT_PREFIX'] = prefix
+        if case['kind'] == 'log' and rng.random() < 0.7:
+            k = next((i for i, l in enumerate(case['lines']) if l.startswith('diff ')), len(case['lines']))
+            stat = corpus.diffstat_lines(rng, [s_.new_path for s_ in case['diff'].sections])
+            case['lines'] = case['lines'][:k] + stat + case['lines'][k:]
     file_fmt = rng.choice(FILE_FMTS)
     commit_fmt = rng.choice(COMMIT_FMTS)
     mode = 'pty' if rng.random() < 0.4 else 'pipe'
@@ -59,7 +71,7 @@ def run_item(item):
     if mode == 'pty' and '--dark' not in opts and '--light' not in opts:
         opts['--dark'] = True
     data = workload.data_of(case)
-    a = runner.run_delta(gen.to_args(opts), data, mode=mode, pty_size=size)
+    a = runner.run_delta(gen.to_args(opts), data, mode=mode, pty_size=size, env=env, **workload.parent_kw(case))
     c = crash_outcome(a, ID)
     if c is not None:
         return c
@@ -69,13 +81,13 @@ def run_item(item):
     hopts['--hyperlinks'] = True
     hopts['--hyperlinks-file-link-format'] = file_fmt
     hopts['--hyperlinks-commit-link-format'] = commit_fmt
-    b = runner.run_delta(gen.to_args(hopts), data, mode=mode, pty_size=size)
+    b = runner.run_delta(gen.to_args(hopts), data, mode=mode, pty_size=size, env=env, **workload.parent_kw(case))
     c = crash_outcome(b, ID)
     if c is not None:
         c['executions'] = 2
         return c
     counters = {'links': 0, 'file_links': 0, 'line_links': 0, 'commit_links': 0, 'pairs': 1}
-    sets = {'kinds': [case['kind']], 'views': [case['view']], 'option_classes': case['meta']['classes'] + (['file-transformation'] if xf else []), 'mode': [mode],
+    sets = {'kinds': [case['kind']], 'views': [case['view']], 'option_classes': case['meta']['classes'] + (['file-transformation'] if xf else []) + (['relative-paths+GIT_PREFIX'] if prefix else []), 'mode': [mode],
             'file_fmt': [file_fmt]}
 
     def bad(key, what, exp=None, obs=None):
@@ -121,7 +133,9 @@ def run_item(item):
                 if sec < 0 or sec >= len(d.sections):
                     continue
                 s = d.sections[sec]
-                paths = {s.old_path, s.new_path}
+                def disp(pth):
+                    return os.path.relpath(pth, prefix.rstrip('/')) if prefix else pth
+                paths = {disp(s.old_path), disp(s.new_path)}
                 if d.fmt == 'plainr':
                     paths = {'old/' + s.old_path, 'new/' + s.new_path}
                 line = ''
@@ -141,7 +155,7 @@ def run_item(item):
                     if shown_path is not None and shown_path not in paths:
                         return bad('hunk-header-path', 'path in hunk header is not the path of its file section', sorted(paths), shown_path)
                     if shown_path is None:
-                        shown_path = s.new_path if s.kind != 'deleted' else s.old_path
+                        shown_path = disp(s.new_path if s.kind != 'deleted' else s.old_path)
                         if d.fmt == 'plainr':
                             shown_path = 'new/' + s.new_path
                 elif info.kind == 'code':
@@ -160,7 +174,7 @@ def run_item(item):
                 exps = []
                 for p in cands:
                     for ln in lines_ok:
-                        u = file_fmt.replace('{path}', norm(os.path.join(cwd, p)))
+                        u = file_fmt.replace('{path}', norm(os.path.join(cwd, prefix, p)))
                         u = u.replace('{line}', ln)
                         exps.append(u)
                 uri_cmp = uri
